@@ -61,6 +61,15 @@ func init() {
 			i.ps.trace = append(i.ps.trace, "OUT:read:"+strArg(a[0]))
 			return tuple{bytesToValues([]byte(e.content)), iface{}}, true
 		},
+		"os.Getwd": func(i *interpreter, fr *frame, a []value) (value, bool) {
+			return tuple{"/vfs", iface{}}, true
+		},
+		"os.Chdir": func(i *interpreter, fr *frame, a []value) (value, bool) {
+			if strArg(a[0]) != "/vfs" {
+				panic(pathAbort{"unsupported: os.Chdir to a directory other than the VFS root"})
+			}
+			return iface{}, true
+		},
 		"os.ReadDir": func(i *interpreter, fr *frame, a []value) (value, bool) {
 			dir := strings.TrimSuffix(strArg(a[0]), "/")
 			e, ok := i.vfs()[dir]
